@@ -202,6 +202,21 @@ pub fn raw_header(sig: bool, wild: bool, max_entries: usize) -> impl Strategy<Va
 pub fn lead_any() -> impl Strategy<Value = Vec<u8>> {
     prop_oneof![
         2 => Just(default_lead("pkg")),
+        // every field of the lead set to a boundary value of its own (major/minor, type, arch,
+        // os, signature type 0 = "none" / 1 / 5 / 0xffff, reserved bytes)
+        2 => (proptest::sample::select(vec![0u16, 1, 2, 3, 4, 5, 0x00ff, 0xffff]), 0usize..7, any::<u8>()).prop_map(|(v, field, b)| {
+            let mut l = default_lead("pkg");
+            match field {
+                0 => l[4] = v as u8,
+                1 => l[5] = v as u8,
+                2 => l[6..8].copy_from_slice(&v.to_be_bytes()),
+                3 => l[8..10].copy_from_slice(&v.to_be_bytes()),
+                4 => l[76..78].copy_from_slice(&v.to_be_bytes()),
+                5 => l[78..80].copy_from_slice(&v.to_be_bytes()),
+                _ => l[80 + (b as usize % 16)] = v as u8,
+            }
+            l
+        }),
         3 => vec(any::<u8>(), 92).prop_map(|rest| {
             let mut l = LEAD_MAGIC.to_vec();
             l.extend_from_slice(&rest);
